@@ -395,6 +395,7 @@ type nbReq struct {
 	bytes []byte
 	sig   string // request bytes without the id: identical sig => identical expected response
 	tcp   bool
+	churn bool // asks about the group that is being churned
 }
 
 type nbClient struct {
@@ -407,6 +408,10 @@ type nbClient struct {
 	gaps     []int
 	sentAll  bool
 	deadline bool
+	linger   bool // tcp: keep the connection open, idle, until the shutdown has been judged
+	silent   bool // tcp: connect and never send a byte
+	ioDone   *rt.Flag
+	release  *rt.Flag
 }
 
 func nameOf(i int) string { return fmt.Sprintf("HOST%03dQ", i) }
